@@ -388,9 +388,36 @@ fn history_case(seed: u64, idx: usize, bin: &str, rt: &std::sync::Arc<tokio::run
                     }
                 }
             }
-            89..=92 => {
+            89..=90 => {
                 history.push(json!({"step":step,"t":own,"op":"flush"}));
                 let _ = ts[ti].cl.flush(rng.chance(0.5));
+            }
+            91..=92 => {
+                // cross-tenant addressing: an id that carries another tenant's index in its upper
+                // half (what the server uses internally) must be refused / not found on EVERY path
+                // and must not touch any tenant's documents (final census judges the effect)
+                let prefix = rng.range(1, 3);
+                let xid = (prefix << 32) | id;
+                let v = rng.pick(&pool).clone();
+                let path = rng.below(8);
+                let pname = ["insert", "bulk_insert", "bulk_load", "update_metadata", "delete", "batch_delete_ids", "query", "bulk_query"][path as usize];
+                history.push(json!({"step":step,"t":own,"op":format!("foreign-prefix-{}", pname),"id":xid.to_string()}));
+                let mut md = HashMap::new();
+                md.insert("cat".to_string(), "x".to_string());
+                let item = InsertRequest { doc_id: xid, embedding: v.clone(), metadata: md.clone(), namespace: String::new() };
+                let accepted: bool = match path {
+                    0 => matches!(ts[ti].cl.insert(xid, v, md, ""), Ok(r) if r.success),
+                    1 => matches!(ts[ti].cl.bulk_insert(vec![item]), Ok(r) if r.total_inserted > 0),
+                    2 => matches!(ts[ti].cl.bulk_load(vec![item]), Ok(r) if r.total_loaded > 0),
+                    3 => matches!(ts[ti].cl.update_metadata(xid, md, true, ""), Ok(r) if r.existed),
+                    4 => matches!(ts[ti].cl.delete(xid, ""), Ok(r) if r.existed),
+                    5 => matches!(ts[ti].cl.batch_delete_ids(vec![xid], ""), Ok(r) if r.deleted_count > 0),
+                    6 => matches!(ts[ti].cl.query(xid, true, ""), Ok(r) if r.found),
+                    _ => matches!(ts[ti].cl.bulk_query(vec![xid], true, ""), Ok(r) if r.total_found > 0),
+                };
+                if accepted {
+                    viol!(format!("foreign-prefix-id-accepted|{}", pname), "step {}: tenant {} {} with id {} (= prefix {} << 32 | {}) was accepted / found", step, own, pname, xid, prefix, id);
+                }
             }
             93..=94 => {
                 history.push(json!({"step":step,"t":own,"op":"snapshot"}));
